@@ -2,8 +2,8 @@ SPECIFICATION Spec
 CONSTANTS
   Senders = {"s1", "s2"}
   Handlers = {"h1"}
-  MaxSend = 2
-  MaxRetx = 1
+  MaxSend = 1
+  MaxRetx = 2
   Cap = 2
   Lifecycle = "separate"
   SecondCheck = TRUE
